@@ -197,6 +197,10 @@ def _do_make_formula_body(formula, default_value, assoc_value=None):
   with use_inferences(InferRecAssignment, InferRecAttrAssignment):
     try:
       astroid.parse(final_formula.get_text())
+      # Some errors are only reported when compiling (e.g. `nonlocal x`, `await` outside an async
+      # function, duplicate argument names), and must not break the module shared by all formulas.
+      compile("def _f(rec, table):\n" + _indent(final_formula, " ").get_text(), code_filename,
+              "exec", dont_inherit=True)
     except (astroid.AstroidSyntaxError, SyntaxError) as e:
       error = getattr(e, "error", e)  # extract SyntaxError from AstroidSyntaxError
       return textbuilder.Text(_create_syntax_error_code(final_formula, formula, error))
